@@ -417,7 +417,9 @@ func (s *simscreen) SetSize(w, h int) {
 	s.cursorx, s.cursory = -1, -1
 	s.physw, s.physh = w, h
 	s.front = newc
-	s.back.Resize(w, h)
+	// as on a real terminal, noticing the new size resizes the cell
+	// buffer and posts the resize event
+	s.resize()
 	s.Unlock()
 }
 
